@@ -165,8 +165,8 @@ theorem noise_byte_mem (k : Nat) (noise frame rest : Bytes) (i : Nat) (hi : i < 
   have hik : i + k < (noise ++ frame.take k).length := by omega
   refine ⟨(noise ++ frame.take k)[i + k], ?_, ?_⟩
   · have hsplit : noise ++ frame ++ rest = (noise ++ frame.take k) ++ (frame.drop k ++ rest) := by
-      rw [List.append_assoc noise, ← List.append_assoc (frame.take k), List.take_append_drop,
-        List.append_assoc]
+      conv => lhs; rw [← List.take_append_drop k frame]
+      simp only [List.append_assoc]
     rw [List.getElem?_drop, hsplit, List.getElem?_append_left hik, List.getElem?_eq_getElem hik]
   · have hd : i < ((noise ++ frame.take k).drop k).length := by rw [List.length_drop]; omega
     have : ((noise ++ frame.take k).drop k)[i] = (noise ++ frame.take k)[i + k] := by
@@ -642,31 +642,41 @@ example : Rtu.attemptReq (rtuReq2C ++ [0x00, 0x00])
 example : ∀ c, c ∈ (List.replicate 255 (0x42 : UInt8) ++ rtuReq2C.take 1).drop 1 → reqKnown c = false := by
   decide +kernel
 example : Rtu.decodeReq (List.replicate 255 0x42 ++ rtuReq2C ++ [0x00, 0x00])
-    = .ok (some (⟨0x2C, [0x01, 0x00, 0x01, 0x00, 0x02]⟩, ⟨255, 8⟩)) :=
-  rtu_req_resync (List.replicate 255 0x42) rtuReq2C [0x00, 0x00] _ (by decide +kernel) (by decide +kernel)
-    (by decide +kernel)
+    = .ok (some (⟨0x2C, [0x01, 0x00, 0x01, 0x00, 0x02]⟩, ⟨255, 8⟩)) := by
+  have h := rtu_req_resync (List.replicate 255 0x42) rtuReq2C [0x00, 0x00]
+    ⟨0x2C, [0x01, 0x00, 0x01, 0x00, 0x02]⟩ (by decide +kernel) (by decide +kernel) (by decide +kernel)
+  rw [List.length_replicate] at h
+  exact h
 
 /-- `rtu_rsp_resync` -/
 example : Rtu.decodeRsp (List.replicate 255 0x42 ++ rtuRsp ++ [0x00])
-    = .ok (some (⟨0x11, [0x01, 0x01, 0x05]⟩, ⟨255, 6⟩)) :=
-  rtu_rsp_resync (List.replicate 255 0x42) rtuRsp [0x00] _ (by decide +kernel) (by decide +kernel)
-    (by decide +kernel)
+    = .ok (some (⟨0x11, [0x01, 0x01, 0x05]⟩, ⟨255, 6⟩)) := by
+  have h := rtu_rsp_resync (List.replicate 255 0x42) rtuRsp [0x00] ⟨0x11, [0x01, 0x01, 0x05]⟩
+    (by decide +kernel) (by decide +kernel) (by decide +kernel)
+  rw [List.length_replicate] at h
+  exact h
 
 /-- `tcp_req_resync` needs a header none of whose bytes is a function code -/
 def tcpReqClean : Bytes := [0x2A, 0x2B, 0x00, 0x00, 0x00, 0x08, 0x2C, 0x16, 0x00, 0x01, 0x00, 0x02, 0x00, 0x03]
 
 example : Tcp.decodeReq (List.replicate 255 0x42 ++ tcpReqClean ++ [0x00])
-    = .ok (some (⟨0x2A2B, 0x2C, [0x16, 0x00, 0x01, 0x00, 0x02, 0x00, 0x03]⟩, ⟨255, 14⟩)) :=
-  tcp_req_resync (List.replicate 255 0x42) tcpReqClean [0x00] _ (by decide +kernel) (by decide +kernel)
-    (by decide +kernel)
+    = .ok (some (⟨0x2A2B, 0x2C, [0x16, 0x00, 0x01, 0x00, 0x02, 0x00, 0x03]⟩, ⟨255, 14⟩)) := by
+  have h := tcp_req_resync (List.replicate 255 0x42) tcpReqClean [0x00]
+    ⟨0x2A2B, 0x2C, [0x16, 0x00, 0x01, 0x00, 0x02, 0x00, 0x03]⟩
+    (by decide +kernel) (by decide +kernel) (by decide +kernel)
+  rw [List.length_replicate] at h
+  exact h
 
 /-- `tcp_rsp_resync` -/
 def tcpRspClean : Bytes := [0x2A, 0x2B, 0x00, 0x00, 0x00, 0x08, 0x2C, 0x16, 0x00, 0x01, 0x00, 0x02, 0x00, 0x03]
 
 example : Tcp.decodeRsp (List.replicate 255 0x42 ++ tcpRspClean ++ [0x00])
-    = .ok (some (⟨0x2A2B, 0x2C, [0x16, 0x00, 0x01, 0x00, 0x02, 0x00, 0x03]⟩, ⟨255, 14⟩)) :=
-  tcp_rsp_resync (List.replicate 255 0x42) tcpRspClean [0x00] _ (by decide +kernel) (by decide +kernel)
-    (by decide +kernel)
+    = .ok (some (⟨0x2A2B, 0x2C, [0x16, 0x00, 0x01, 0x00, 0x02, 0x00, 0x03]⟩, ⟨255, 14⟩)) := by
+  have h := tcp_rsp_resync (List.replicate 255 0x42) tcpRspClean [0x00]
+    ⟨0x2A2B, 0x2C, [0x16, 0x00, 0x01, 0x00, 0x02, 0x00, 0x03]⟩
+    (by decide +kernel) (by decide +kernel) (by decide +kernel)
+  rw [List.length_replicate] at h
+  exact h
 
 /-- `*_gives_up_unknown`: 257 (RTU) / 263 (TCP) bytes of 0x42 -/
 example : (Rtu.decodeReq (List.replicate 257 0x42)).isErr = true :=
@@ -695,7 +705,7 @@ example : Rtu.decodeReq (List.replicate 256 0x42) = .ok none :=
 
 /-- `*_no_later` / `*_not_after`: hypotheses hold for the first example -/
 example : ∃ f loc, Rtu.decodeReq (List.replicate 255 0x42 ++ rtuReq) = .ok (some (f, loc)) :=
-  ⟨_, _, by decide +kernel⟩
+  ⟨⟨0x11, [0x01, 0x00, 0x01, 0x00, 0x02]⟩, ⟨255, 8⟩, by decide +kernel⟩
 
 /-- `*_at_zero`, `*_prefix_none`, `*_short` -/
 example : Rtu.attemptReq (rtuReq ++ [0x42]) = .ok (some (⟨0x11, [0x01, 0x00, 0x01, 0x00, 0x02]⟩, 8)) := by
